@@ -136,6 +136,14 @@ func checkC11(c *Ctx, r *Report) {
 			r.Ok("EXTENT", key, "sm4/"+rt.File, fmt.Sprintf("%d memory accesses proved inside their parameter's contract on every path (%d path states at most)", nOK, res.maxStates))
 			// CONSUMPTION obligations (a functional necessary condition, not a memory-safety one) are reported under C07 and C10
 		}
+		// the Go callers: Seal, Open (with ensureCapacity), the Block methods and the constructor in the glue domain, path by
+		// path; the remaining helpers by dominating-guard facts
+		fam := map[string]bool{"C11": true}
+		glueGCM(r, p, arch, fam)
+		glueBlocks(r, p, arch, fam)
+		if g := newGlueRun(r, p, arch, "sm4.NewCipher", nil); g != nil {
+			g.obligations("CALLSITE", "SLICE-BOUNDS", "INDEX-BOUNDS")
+		}
 		c11CallSites(r, p, arch, contracts)
 	}
 	p386, err := LoadRepo(c.Repo, "386")
@@ -153,14 +161,17 @@ func checkC11(c *Ctx, r *Report) {
 	r.Floor("routines_arm64", 12)
 	r.Floor("accesses_amd64", 1000)
 	r.Floor("accesses_arm64", 300)
-	r.Floor("asm_call_sites_amd64", 8)
-	r.Floor("asm_call_sites_arm64", 15)
+	r.Floor("asm_call_sites_arm64", 12)
+	r.Floor("glue_obligations", 200)
 }
 
 // c11CallSites: every Go call of a body-less sm4 function guarantees the callee's contract.
 func c11CallSites(r *Report, p *Prog, arch string, contracts map[string]*xContract) {
 	for _, fn := range p.RepoFuncs() {
 		if len(fn.Blocks) == 0 || fn.Pkg == nil || shortPkg(fn.Pkg.Pkg.Path()) != "sm4" {
+			continue
+		}
+		if glueCovered(p, fn) {
 			continue
 		}
 		var env *LinEnv
@@ -324,6 +335,9 @@ func c11Reslice(r *Report, p *Prog, arch string) {
 		if len(fn.Blocks) == 0 || fn.Pkg == nil || shortPkg(fn.Pkg.Pkg.Path()) != "sm4" {
 			continue
 		}
+		if glueCovered(p, fn) {
+			continue
+		}
 		env := NewLinEnv(p, fn)
 		for _, b := range fn.Blocks {
 			for _, in := range b.Instrs {
@@ -479,6 +493,43 @@ func proveWithCallers(p *Prog, fn *ssa.Function, E *Lin, facts []Fact, depth int
 						}
 					}
 					if !proveWithCallers(p, caller, sub, cf, depth+1) {
+						return false
+					}
+				}
+			}
+		}
+	}
+	return n > 0
+}
+
+// glueRoots: the functions interpreted in the glue domain as entry points
+var glueRoots = map[string]bool{
+	"sm4.(*sm4GcmAsm).Seal": true, "sm4.(*sm4GcmAsm).Open": true,
+	"sm4.(*sm4CipherAsm).Encrypt": true, "sm4.(*sm4CipherAsm).Decrypt": true,
+	"sm4.(*sm4Cipher).Encrypt": true, "sm4.(*sm4Cipher).Decrypt": true,
+	"sm4.NewCipher": true, "sm4.encryptX2": true, "sm4.decryptX2": true,
+}
+
+// glueFollowed: unexported helpers the glue interpretation follows from its roots. They count as covered only while every
+// static caller is itself covered (otherwise the guard-fact analysis decides them as before).
+var glueFollowed = map[string]bool{"sm4.ensureCapacity": true, "sm4.newCipher": true, "sm4.newCipherGeneric": true}
+
+func glueCovered(p *Prog, fn *ssa.Function) bool {
+	name := p.FuncName(fn)
+	if glueRoots[name] {
+		return true
+	}
+	if !glueFollowed[name] {
+		return false
+	}
+	n := 0
+	for _, caller := range p.RepoFuncs() {
+		for _, b := range caller.Blocks {
+			for _, in := range b.Instrs {
+				if call, ok := in.(*ssa.Call); ok && call.Call.StaticCallee() == fn {
+					n++
+					cn := p.FuncName(caller)
+					if !glueRoots[cn] && !glueFollowed[cn] {
 						return false
 					}
 				}
